@@ -1,12 +1,17 @@
 """C19 — ZERO is the exact zero of every unit and rep; never accepted where a point is required.
 
 Program space: (every library unit + generated units) x R11: Zero->Quantity traits, 18 construction /
-conversion / assignment / rep_cast forms, 6 comparisons x both argument orders, + and - in both orders,
-+= -= on a few values per rep; `T x = ZERO` for every arithmetic type and chrono durations; traits
-is_constructible / is_convertible / is_assignable <QuantityPoint, Zero> must be false without a hard error.
+conversion / assignment forms, 6 comparisons x both argument orders, + and - in both orders, += -= on a few
+values per rep; per unit x R11 also the same comparisons/additions *in constant expressions* and the zero
+quantity seen from scaled sibling units (u*3, u/3, u*5/7, u*pi); every conversion context (copy/direct/list
+init, casts, reference binding, return, argument, assignment, cv targets) for every arithmetic type and a
+grid of chrono durations; traits is_constructible / is_convertible / is_assignable <QuantityPoint, Zero>
+must be false without a hard error.
 Negative probes (with accepted Quantity twins): ZERO in every context that requires a QuantityPoint.
 Value space: compiled sweep of all 8/16-bit values, +-W windows for 32/64-bit, every-exponent floating
-alphabets (NaN, inf, -0.0, denormals) on 6 units x 11 reps; oracle = the raw operator on (x, 0).
+alphabets (NaN, inf, -0.0, denormals) on 6 (thorough: 10) units x 11 reps; oracle = the raw operator on (x, 0).
+Recorded, never judged (outside the statement): `rep_cast<R>(ZERO)`, ZERO as a displacement next to a
+point (p + ZERO, p - ZERO, ...), __int128 targets, min/max/clamp(q, ZERO) twins.
 """
 import json
 import os
@@ -42,6 +47,44 @@ def judge_unit(o):
     return bad
 
 
+AUX_TAG = {"cx": "constexpr-cmp", "xu": "cross-unit"}
+AUX_WHAT = {"cx": "comparison with / addition of ZERO evaluated in a constant expression",
+            "xu": "the zero quantity converted to a scaled sibling unit"}
+NARROW_CAP = 12     # failed aux records are re-run rep by rep only when there are few of them
+NARROW_CAP_SC = 48  # failed scalar records are re-run form by form only when there are few of them
+
+
+def aux_rep_groups(i, tier):
+    """Rep groups (one record each) of the per-unit constexpr / cross-unit / rep_cast records.  thorough: all 11 reps in four
+    records.  quick: one record of 3 reps per unit, rotating with the unit's index, so that every unit and every rep is
+    covered (each rep on ~20 units) at 3/11 of the cost."""
+    if tier != "quick":
+        return [list(R11[0:3]), list(R11[3:6]), list(R11[6:9]), list(R11[9:11])]
+    return [[R11[(i + 4 * k) % len(R11)] for k in range(3)]]
+
+
+def build_plan(units, std, tier):
+    """Records of section 1 for one language standard: (records, meta rid -> tuple)."""
+    recs, meta = [], {}
+
+    def add(rec_fn, m):
+        rid = len(recs)
+        recs.append(rec_fn(rid))
+        meta[rid] = m
+
+    for u in units:
+        for rep in R11:
+            add(lambda rid: L.unit_record(rid, u, rep), ("unit", u, rep))
+    for kind in ("cx", "xu", "rc"):
+        for i, u in enumerate(units):
+            for reps in aux_rep_groups(i, tier):
+                add(lambda rid: L.aux_record(rid, u, kind, reps), ("aux", u, kind, reps))
+    for t in L.scalar_targets(R11, std):
+        add(lambda rid: L.scalar_record(rid, t), ("scalar", t))
+    add(L.info_record, ("info",))
+    return recs, meta
+
+
 def check(run):
     tier = run.tier
     units = L.all_units()
@@ -50,63 +93,163 @@ def check(run):
     core.warm_pch(cfgs)
     n_eval = 0
     phase = {}
+    info = {"rep_cast_ZERO_forms_failing_info": 0, "rep_cast_ZERO_records_not_compiling_info": 0, "rep_cast_ZERO_facts_info": 0,
+            "int128_is_arithmetic_info": 0, "int128_convertible_info": 0, "quantity_twin_rejected_not_demanded_info": 0}
 
     def mark(name):
         phase[name] = round(run.elapsed() - sum(phase.values()), 1)
 
     written = [0]
+    sec1_bad = set()      # units for which section 1 already reported that a use of ZERO does not compile / misbehaves
 
     def report(key, what, art):
+        if art.get("kind") == "unit":
+            sec1_bad.add(art["unit"])
         if run.match_known(key) is None and written[0] < 60:   # finish() prints at most 50
             written[0] += 1
             run.violation(key, what, run.write_replay(key, dict(art, what=what)))
         else:
             run.violation(key, what)
 
-    # ---- 1. compile side: all units x R11 (+ scalar / chrono targets)
-    recs, meta = [], {}
-    for u in units:
-        for rep in R11:
-            rid = len(recs)
-            recs.append(L.unit_record(rid, u, rep))
-            meta[rid] = (u, rep)
-    srecs, smeta = L.scalar_records(len(recs), R11)
-    allrecs = recs + srecs
-    chunk = max(8, -(-len(allrecs) // 12))   # ~12 TUs per configuration
-    outs = dict(zip([c.name for c in cfgs], core.pmap(
-        lambda c: psx.run_dump(c, allrecs, os.path.join(run.wd, "dump"), "z", DUMP_PREAMBLE, chunk=chunk), cfgs, workers=3)))
-    n_unit_facts = n_scalar = 0
+    # ---- 1. compile side: all units x R11 (+ constexpr / cross-unit / rep_cast records per unit, scalar / chrono targets)
+    plans = {c.name: build_plan(units, c.std, tier) for c in cfgs}
+
+    def dump(c):
+        recs, meta = plans[c.name]
+        aux = [r for r in recs if meta[r[0]][0] == "aux"]      # up to 3 reps each: small TUs (<= 72 unit x rep instantiation sets)
+        main = [r for r in recs if meta[r[0]][0] != "aux"]
+        wd = os.path.join(run.wd, "dump")
+        r1, f1 = psx.run_dump(c, main, wd, "z", DUMP_PREAMBLE, chunk=max(8, -(-len(main) // 12)))
+        r2, f2 = psx.run_dump(c, aux, wd, "x", DUMP_PREAMBLE, chunk=24)
+        r1.update(r2)
+        f1.update(f2)
+        return r1, f1
+
+    # thorough: the two corner configurations first, then the other pairs while the time budget lasts (a pair is started only
+    # if the time the previous one took, plus a reserve for the probes and the sweep, is still available)
+    waves = [cfgs] if tier == "quick" else [list(core.CORNERS), [core.GXX20, core.CLANG14],
+                                            [c for c in cfgs if c.std == "c++17"]]
+    outs, pouts = {}, {}
+    last = 0.0
+    for wv in waves:
+        if outs and run.time_left() < 1.3 * last + 700:
+            break
+        t0 = run.elapsed()
+        outs.update(zip([c.name for c in wv], core.pmap(dump, wv, workers=3)))
+        last = run.elapsed() - t0
+    skipped_cfgs = [str(c) for c in cfgs if c.name not in outs]
+    cfgs = [c for c in cfgs if c.name in outs]
+    n_unit_facts = n_scalar = n_scalar_facts = n_cx = n_xu = 0
     for cfg in cfgs:
+        allrecs, meta = plans[cfg.name]
         res, failed = outs[cfg.name]
         if len(res) + len(failed) != len(allrecs):
             raise core.InfraError("dump lost records under %s" % cfg)
+        art0 = {"cfg": [cfg.cxx, cfg.std]}
+        narrow_aux, narrow_sc = [], []
         for rid, diag in sorted(failed.items()):
             _guard(diag)
-            if rid in meta:
-                u, rep = meta[rid]
+            m = meta[rid]
+            if m[0] == "unit":
+                u, rep = m[1], m[2]
                 key = "C19:no-compile:rep=%s:unit=%s:cfg=%s" % (rep, u.name, cfg.name)
-                report(key, "%s rejects a use of ZERO with Quantity<%s, %s> (construction/comparison/+/-/rep_cast or the "
+                report(key, "%s rejects a use of ZERO with Quantity<%s, %s> (construction/comparison/+/- or the "
                        "QuantityPoint traits hard-error): %s" % (cfg, u.cpp, rep, diag),
-                       {"kind": "unit", "cfg": [cfg.cxx, cfg.std], "unit": u.name, "rep": rep})
+                       dict(art0, kind="unit", unit=u.name, rep=rep))
+            elif m[0] == "aux":
+                if m[2] == "rc":
+                    info["rep_cast_ZERO_records_not_compiling_info"] += 1      # not in the statement: counted only
+                else:
+                    narrow_aux.append((rid, m[1], m[2], diag, m[3]))
+            elif m[0] == "scalar":
+                narrow_sc.append((rid, m[1], diag))
             else:
-                key = "C19:no-compile:scalar:%s:cfg=%s" % (smeta[rid], cfg.name)
-                report(key, "%s rejects `T x = ZERO` for %s: %s" % (cfg, smeta[rid], diag),
-                       {"kind": "scalar", "cfg": [cfg.cxx, cfg.std], "T": smeta[rid][2:]})
+                raise core.InfraError("the traits-only info record does not compile under %s: %s" % (cfg, diag))
+        # a failed per-unit record names 11 reps x many items: re-run rep by rep so that the key is as narrow as the failure
+        if 0 < len(narrow_aux) <= NARROW_CAP:
+            sub, smeta = [], {}
+            for rid, u, kind, diag, reps in narrow_aux:
+                for rep in reps:
+                    smeta[len(sub)] = (u, kind, rep, rid)
+                    sub.append(L.aux_record(len(sub), u, kind, [rep]))
+            _, f2 = psx.run_dump(cfg, sub, os.path.join(run.wd, "narrow"), "ax", DUMP_PREAMBLE, chunk=11)
+            hit = set()
+            for i, diag in sorted(f2.items()):
+                _guard(diag)
+                u, kind, rep, rid = smeta[i]
+                hit.add(rid)
+                key = "C19:%s:no-compile:rep=%s:unit=%s:cfg=%s" % (AUX_TAG[kind], rep, u.name, cfg.name)
+                report(key, "%s rejects %s for Quantity<%s, %s>: %s" % (cfg, AUX_WHAT[kind], u.cpp, rep, diag),
+                       dict(art0, kind="aux", aux=kind, unit=u.name, rep=rep))
+            narrow_aux = [x for x in narrow_aux if x[0] not in hit]
+        for rid, u, kind, diag, reps in narrow_aux:
+            key = "C19:%s:no-compile:rep=some-of-%s:unit=%s:cfg=%s" % (AUX_TAG[kind], "+".join(reps), u.name, cfg.name)
+            report(key, "%s rejects %s for Quantity<%s, R> for some R in %s: %s" % (cfg, AUX_WHAT[kind], u.cpp, reps, diag),
+                   dict(art0, kind="aux", aux=kind, unit=u.name, reps=reps))
+        if 0 < len(narrow_sc) <= NARROW_CAP_SC:
+            sub, smeta = [], {}
+            # form-major order: a form that stopped compiling fills whole chunks (cheap bisection), the others pass in one go
+            for fid, t in sorted((fid, t) for rid, t, diag in narrow_sc for fid in L.sc_form_ids(t)):
+                smeta[len(sub)] = (t, fid)
+                sub.append(L.scalar_record(len(sub), t, only=fid))
+            _, f2 = psx.run_dump(cfg, sub, os.path.join(run.wd, "narrow"), "sc", DUMP_PREAMBLE, chunk=20)
+            hit = set()
+            for i, diag in sorted(f2.items()):
+                _guard(diag)
+                t, fid = smeta[i]
+                hit.add(t)
+                key = "C19:no-compile:scalar:form=%s:T=%s:cfg=%s" % (fid, t, cfg.name)
+                report(key, "%s rejects the conversion of ZERO to %s in the context `%s`: %s" % (cfg, t, fid, diag),
+                       dict(art0, kind="scalar", T=t, form=fid))
+            narrow_sc = [x for x in narrow_sc if x[1] not in hit]
+        for rid, t, diag in narrow_sc:
+            key = "C19:no-compile:scalar:form=any:T=%s:cfg=%s" % (t, cfg.name)
+            report(key, "%s rejects a conversion of ZERO to %s (one of: %s): %s" % (cfg, t, ", ".join(L.sc_form_ids(t)), diag),
+                   dict(art0, kind="scalar", T=t))
         for rid, o in sorted(res.items()):
-            if rid in meta:
-                u, rep = meta[rid]
+            m = meta[rid]
+            if m[0] == "unit":
+                u, rep = m[1], m[2]
                 n_unit_facts += 4 + len(L.FORMS) + len(L.ITEMS)
                 for tag, msg in judge_unit(o):
                     key = "C19:%s:rep=%s:unit=%s:cfg=%s" % (tag, rep, u.name, cfg.name)
                     report(key, "%s: Quantity<%s, %s>: %s" % (cfg, u.cpp, rep, msg),
-                           {"kind": "unit", "cfg": [cfg.cxx, cfg.std], "unit": u.name, "rep": rep, "tag": tag})
-            else:
+                           dict(art0, kind="unit", unit=u.name, rep=rep, tag=tag))
+            elif m[0] == "aux":
+                u, kind = m[1], m[2]
+                names = L.AUX_KINDS[kind]
+                for rep in m[3]:
+                    mask = o["m_" + rep.replace(" ", "_")]
+                    if kind == "rc":
+                        info["rep_cast_ZERO_facts_info"] += len(names)
+                        info["rep_cast_ZERO_forms_failing_info"] += len(L.bits(mask, names))
+                        continue
+                    if kind == "cx":
+                        n_cx += len(names)
+                    else:
+                        n_xu += len(names) if rep in core.F3 else len([x for x in names if not x.startswith("fp:")])
+                    for it in L.bits(mask, names):
+                        key = "C19:%s:item=%s:rep=%s:unit=%s:cfg=%s" % (AUX_TAG[kind], it, rep, u.name, cfg.name)
+                        report(key, "%s: Quantity<%s, %s>: %s: `%s` is not what the raw value 0 gives" % (
+                            cfg, u.cpp, rep, AUX_WHAT[kind], it), dict(art0, kind="aux", aux=kind, unit=u.name, rep=rep, item=it))
+            elif m[0] == "scalar":
+                t = m[1]
                 n_scalar += 1
-                if not o["zero"]:
-                    key = "C19:scalar-not-zero:%s:cfg=%s" % (smeta[rid], cfg.name)
-                    report(key, "%s: `T x = ZERO` is not 0 for %s" % (cfg, smeta[rid]),
-                           {"kind": "scalar", "cfg": [cfg.cxx, cfg.std], "T": smeta[rid][2:]})
-    n_eval += n_unit_facts + n_scalar
+                ids = L.sc_form_ids(t)
+                n_scalar_facts += len(ids)
+                for fid in L.bits(o["mask"], ids):
+                    key = "C19:scalar-not-zero:form=%s:T=%s:cfg=%s" % (fid, t, cfg.name)
+                    report(key, "%s: ZERO converted to %s in the context `%s` is not exactly zero (or the trait is false)" % (cfg, t, fid),
+                           dict(art0, kind="scalar", T=t, form=fid))
+            else:
+                for i, t in enumerate(L.NON_ARITH_INFO):
+                    info["int128_is_arithmetic_info"] += bool(o["arith%d" % i])
+                    info["int128_convertible_info"] += bool(o["conv%d" % i])
+                    if o["arith%d" % i] and not o["conv%d" % i]:
+                        key = "C19:scalar-not-convertible:T=%s:cfg=%s" % (t, cfg.name)
+                        report(key, "%s: std::is_arithmetic<%s> is true but Zero does not convert to it" % (cfg, t),
+                               dict(art0, kind="info"))
+    n_eval += n_unit_facts + n_scalar_facts + n_cx + n_xu
     mark("dump")
 
     # ---- 2. negative side: a point is required -> ZERO must be rejected; Quantity twin must be accepted
@@ -119,34 +262,58 @@ def check(run):
                 probes.append(core.Probe(i, rej, "reject"))
                 probes.append(core.Probe(i + 1, acc, "accept"))
                 pmeta[i] = pmeta[i + 1] = (u, rep, name)
-    pouts = dict(zip([c.name for c in cfgs], core.pmap(
-        lambda c: core.run_probes(c, probes, os.path.join(run.wd, "probes"), "pt", L.UNITS_PREAMBLE, batch=64)[0], cfgs, workers=3)))
+    n_pairs = len(probes)
+    iprobes = []
+    for u in pt_units:
+        for rep in R11:
+            for name, code, usual in L.point_info_probes(u, rep):
+                iprobes.append((len(probes), name))
+                probes.append(core.Probe(len(probes), code, usual))
+    last = 0.0
+    for wv in waves:
+        wv = [c for c in wv if c in cfgs]
+        if not wv or (pouts and run.time_left() < 1.3 * last + 500):
+            break
+        t0 = run.elapsed()
+        pouts.update(zip([c.name for c in wv], core.pmap(
+            lambda c: core.run_probes(c, probes, os.path.join(run.wd, "probes"), "pt", L.PROBE_PREAMBLE, batch=64)[0], wv, workers=3)))
+        last = run.elapsed() - t0
+    probe_cfgs = [c for c in cfgs if c.name in pouts]
     opposite = 0
-    for cfg in cfgs:
+    displacement = {name: {"accept": 0, "reject": 0} for name, _, _ in L.PT_INFO_FORMS}
+    for cfg in probe_cfgs:
         res = pouts[cfg.name]
-        for i in range(0, len(probes), 2):
+        art0 = {"cfg": [cfg.cxx, cfg.std]}
+        for i in range(0, n_pairs, 2):
             u, rep, name = pmeta[i]
             (vr, dr), (va, da) = res[i], res[i + 1]
             if va != "accept":
                 _guard(da)
-                raise core.InfraError("twin probe rejected (probe generator is wrong or ZERO does not work with a "
-                                      "Quantity, which section 1 reports): %s :: %s" % (probes[i + 1].code, da))
+                if L.PT_DEMANDED_TWIN[name]:       # ZERO stopped initialising / converting to / comparing with a *Quantity*
+                    key = "C19:quantity-twin-rejected:%s:rep=%s:unit=%s:cfg=%s" % (name, rep, u.name, cfg.name)
+                    report(key, "%s rejects ZERO where a Quantity is required: `%s`: %s" % (cfg, probes[i + 1].code, da),
+                           dict(art0, kind="probe", unit=u.name, rep=rep, form=name, which="twin"))
+                else:
+                    info["quantity_twin_rejected_not_demanded_info"] += 1
             if vr != "reject":
                 key = "C19:point-accepts-ZERO:%s:rep=%s:unit=%s:cfg=%s" % (name, rep, u.name, cfg.name)
                 report(key, "%s accepts ZERO where a QuantityPoint is required: `%s`" % (cfg, probes[i].code),
-                       {"kind": "probe", "cfg": [cfg.cxx, cfg.std], "unit": u.name, "rep": rep, "form": name})
-            else:
+                       dict(art0, kind="probe", unit=u.name, rep=rep, form=name))
+            elif va == "accept":
                 opposite += 1
-    n_eval += len(probes) * len(cfgs)
+        for i, name in iprobes:
+            displacement[name][res[i][0]] += 1
+    n_eval += len(probes) * len(probe_cfgs)
     mark("probes")
 
     # ---- 3. value sweep
-    sw_units = [by_name[n] for n in L.SWEEP_UNITS]
+    sw_units = [by_name[n] for n in L.SWEEP_UNITS + (L.SWEEP_UNITS_THOROUGH if tier == "thorough" else [])]
     w = 2 ** 12 if tier == "quick" else 2 ** 16
     sweep_cfgs = [(core.GXX14, []), (core.CLANG20, ["-O2"])]
     if tier == "thorough":
         sweep_cfgs += [(core.GXX20, ["-O2"]), (core.CLANG14, [])]
     nontrivial = set()
+    sweep_skipped = 0
     n_sweep = 0
     done_cfgs = []
     samples = []
@@ -162,12 +329,17 @@ def check(run):
             L.sweep_tu(stem + ".cc", [u], R11, w)
             rc, err = core.build_exe(cfg, stem + ".cc", stem, flags)
             if rc != 0:
+                if u.name in sec1_bad:      # already a VIOLATION from section 1 (same operations): nothing to sweep, not an infra error
+                    return None
                 _guard(err)
                 raise core.InfraError("C19 sweep TU does not build although section 1 accepted the same operations "
                                       "(%s):\n%s" % (stem, err[-2500:]))
             return stem
 
         exes = core.pmap(build, sw_units)
+        sweep_skipped += sum(1 for e in exes if e is None)
+        n_built = sum(1 for e in exes if e is not None)
+        exes = [e for e in exes if e is not None]
 
         def runexe(job):
             rc, out, err = core.sh([job[0], str(job[1]), "4"], timeout=3000)
@@ -179,7 +351,7 @@ def check(run):
         for s, v in core.pmap(runexe, [(e, p) for e in exes for p in range(4)]):
             stats += s
             viols += v
-        if len(stats) != len(sw_units) * len(R11):
+        if len(stats) != n_built * len(R11):
             raise core.InfraError("sweep under %s produced %d summaries" % (cfg, len(stats)))
         for s in stats:
             if s["evals"] == 0:
@@ -206,38 +378,68 @@ def check(run):
     mark("sweep")
 
     dn = len(nontrivial) + opposite
-    if dn < 2:
+    if dn < 2 and not run.violations:
         raise core.InfraError("vacuity: no comparison saw both outcomes and no probe pair had opposite verdicts")
+    recs0 = plans[cfgs[0].name][0]
     samples += [{"probe_rejected": probes[0].code, "twin_accepted": probes[1].code},
-                {"record": " ".join(recs[len(recs) // 2][1])[:400]}]
+                {"record": " ".join(recs0[len(units) * len(R11) // 2][1])[:400]},
+                {"scalar_record": " ".join(recs0[-2][1])[:300]}]
+    nforms = len(L.point_probes(pt_units[0], "int32_t"))
     run.cov.update({
         "evaluations": n_eval, "distinct_nontrivial": dn,
         "rule": ("Enumerated: (a) every library unit and %d generated units x 11 reps x %s configurations: 4 traits, %d "
-                 "construction/conversion/assignment/rep_cast forms, %d comparison/additive items (6 comparisons x both "
+                 "construction/conversion/assignment forms, %d comparison/additive items (6 comparisons x both "
                  "argument orders, q+ZERO, q-ZERO, ZERO+q, ZERO-q, (q+-ZERO)==q, += -=) on the values 0, 1, max, lowest, -1 "
-                 "(+ -0.0, denorm_min, +-inf, quiet and signalling NaN for floating reps); (b) `T x = ZERO`, constexpr, "
-                 "argument passing and assignment for %d arithmetic types, the 6 chrono typedefs and duration<R, P> for 11 "
-                 "reps x %d periods; (c) %d point-context forms (init, assign, argument, return, 6 comparisons x both "
-                 "orders) x %d point units x 11 reps, each with an accepted Quantity twin; (d) compiled sweeps of the %d "
-                 "items over all 8/16-bit values, +-%d windows around 0/min/max/2^k for 32/64-bit and every exponent x "
-                 "mantissa patterns x sign for floating reps on %d units x 11 reps; expected = raw operator on (x, 0) "
-                 "(ZERO-q skipped where 0-x overflows). distinct_nontrivial = (unit, rep, comparison item) sweep "
-                 "instances on which both true and false were observed + rejected point probes whose Quantity twin was "
-                 "accepted." % (len(L.GEN), len(cfgs), len(L.FORMS), len(L.ITEMS), len(L.ARITH), len(L.PERIODS),
-                                len(L.point_probes(pt_units[0], "int32_t")), len(pt_units), len(L.ITEMS), w, len(sw_units))),
+                 "(+ -0.0, denorm_min, +-inf, quiet and signalling NaN for floating reps); (a2) per unit x rep, in records of "
+                 "their own (thorough: all 11 reps per unit; quick: 3 reps per unit, rotating with the unit index so that every "
+                 "unit and every rep occurs): the 12 comparisons and 5 additive items evaluated in *constant expressions* on "
+                 "the stored values 0, 1, R(-1), -0 and lowest (integers) / quiet NaN (floating), expected = the raw operator "
+                 "at run time; and "
+                 "%d conversions of Quantity(ZERO) to the scaled siblings u*3, u/3, u*5/7 (forcing and explicit-rep forms for "
+                 "every rep; policy-checked .in/.as/implicit construction and u*pi for floating reps), expected exactly 0; "
+                 "(b) %d conversion contexts (copy/direct/list init, constexpr, static/functional/C cast, const-ref binding, "
+                 "argument, return, assignment, array, member initialiser, new, const/volatile target) + 4 traits for %d "
+                 "arithmetic types (+ char8_t under c++20), the chrono typedefs (+ days..years under c++20), %d further "
+                 "durations and duration<R, P> for 11 reps x %d periods; (c) %d point-context forms (initialisations, casts, "
+                 "assignment, argument, return, member/array/vector elements, ?:, reference binding, new, std::min<P>, ADL "
+                 "min/max/clamp, 6 comparisons x both orders) x %d point units x 11 reps, each with a Quantity twin that must "
+                 "be accepted; (d) compiled sweeps of the %d items over all 8/16-bit values, +-%d windows around "
+                 "0/min/max/2^k for 32/64-bit and every exponent x mantissa patterns x sign for floating reps on %d units x 11 "
+                 "reps; expected = raw operator on (x, 0) (ZERO-q skipped where 0-x overflows). All alphabets are fixed "
+                 "enumerations. distinct_nontrivial = (unit, rep, comparison item) sweep instances on which both true and "
+                 "false were observed + rejected point probes whose Quantity twin was accepted. Keys ending in _info are "
+                 "recorded facts outside the statement, never judged." % (
+                     len(L.GEN), len(cfgs), len(L.FORMS), len(L.ITEMS), len(L.XU_ITEMS), len(L.SC_FORMS) + 1, len(L.ARITH),
+                     len(L.CHRONO_EXTRA), len(L.PERIODS), nforms, len(pt_units), len(L.ITEMS), w, len(sw_units))),
         "samples": samples,
-        "exhaustive": True,
+        "exhaustive": not skipped_cfgs and len(probe_cfgs) == len(cfgs) and len(done_cfgs) == len(sweep_cfgs),
         "exhaustive_note": ("complete over the stated finite alphabets (all units x reps x forms x configurations; all 8/16-bit "
-                            "values); 32/64-bit and floating values are covered on the stated windows / structured alphabets only"),
+                            "values) unless `configs_skipped_for_time` / `probe_configs` / `sweep_configs` show that the time budget cut "
+                            "configurations; 32/64-bit and floating values are covered on the stated windows / structured "
+                            "alphabets only"),
         "units": len(units), "configs": [str(c) for c in cfgs], "unit_rep_facts_checked": n_unit_facts,
-        "scalar_and_chrono_targets": n_scalar, "point_probe_pairs_opposite_verdict": opposite,
-        "point_probes": len(probes) * len(cfgs), "sweep_item_evaluations": n_sweep, "sweep_configs": done_cfgs,
+        "constexpr_comparison_addition_facts": n_cx, "cross_unit_zero_facts": n_xu,
+        "scalar_and_chrono_targets": n_scalar, "scalar_and_chrono_conversion_facts": n_scalar_facts,
+        "point_probe_pairs_opposite_verdict": opposite,
+        "point_probes": len(probes) * len(probe_cfgs), "probe_configs": [str(c) for c in probe_cfgs],
+        "configs_skipped_for_time": skipped_cfgs, "sweep_item_evaluations": n_sweep, "sweep_configs": done_cfgs,
         "comparison_instances_with_both_outcomes": len(nontrivial), "phase_wall_s": phase,
+        "point_displacement_verdicts_info": displacement,
+        "sweep_unit_builds_skipped_after_section1_violation": sweep_skipped,
     })
+    run.cov.update(info)
     run.assumptions += [
         "g++ 12 / clang 14 on x86-64 LP64 execute the compiled harness faithfully",
         "the raw built-in operator applied to (x, 0) is the reference; NaN results compare as 'both NaN'",
-        "`p + ZERO` (ZERO as a displacement) is outside the statement and not probed",
+        "'converts to' is read as every implicit or explicit conversion context of the language (copy/direct/list "
+        "initialisation, casts, reference binding, argument, return, assignment)",
+        "loss of constexpr on ZERO initialisation / comparison / addition is reported (own keys C19:form=constexpr, "
+        "C19:constexpr-cmp:...), although the statement does not literally mention constant expressions",
+        "ZERO as a displacement next to a point (p + ZERO, ZERO + p, p - ZERO, ZERO - p, p += ZERO, p -= ZERO), "
+        "`rep_cast<R>(ZERO)`, __int128 targets (not std::is_arithmetic under -std=c++NN) and min/max/clamp(q, ZERO) are "
+        "outside the statement: their verdicts are recorded in *_info evidence keys and never judged",
+        "conversions of Quantity(ZERO) to a sibling unit are only demanded where Au's conversion itself is available for "
+        "every rep (forcing / explicit-rep forms; policy-checked forms for floating reps only)",
     ]
 
 
@@ -255,16 +457,37 @@ def replay(path):
         else:
             tags = [t for t, _ in judge_unit(res[0])]
             hit = ("still fails: %s" % tags) if (r.get("tag") in tags or (not r.get("tag") and tags)) else None
+    elif r["kind"] == "aux":
+        u, kind = by_name[r["unit"]], r["aux"]
+        reps = [r["rep"]] if r.get("rep") else r.get("reps", list(R11))
+        res, failed = psx.run_dump(cfg, [L.aux_record(0, u, kind, reps)], wd, "rp", DUMP_PREAMBLE)
+        if 0 in failed:
+            hit = failed[0]
+        else:
+            names = L.AUX_KINDS[kind]
+            bad = sorted(set(it for rep in reps for it in L.bits(res[0]["m_" + rep.replace(" ", "_")], names)))
+            hit = ("still wrong: %s" % bad) if (bad and (not r.get("item") or r["item"] in bad)) else None
     elif r["kind"] == "scalar":
-        recs, meta = L.scalar_records(0, R11)
-        rid = [k for k, v in meta.items() if v == "T=" + r["T"]][0]
-        res, failed = psx.run_dump(cfg, [x for x in recs if x[0] == rid], wd, "rp", DUMP_PREAMBLE)
-        hit = failed.get(rid) or (None if res[rid]["zero"] else "not zero")
+        t, fid = r["T"], r.get("form")
+        res, failed = psx.run_dump(cfg, [L.scalar_record(0, t, only=fid)], wd, "rp", DUMP_PREAMBLE)
+        if 0 in failed:
+            hit = failed[0]
+        else:
+            bad = L.bits(res[0]["mask"], L.sc_form_ids(t))
+            hit = ("not exactly zero in: %s" % bad) if bad else None
+    elif r["kind"] == "info":
+        res, failed = psx.run_dump(cfg, [L.info_record(0)], wd, "rp", DUMP_PREAMBLE)
+        hit = failed.get(0) or ("arithmetic but not convertible" if any(
+            res[0]["arith%d" % i] and not res[0]["conv%d" % i] for i in range(len(L.NON_ARITH_INFO))) else None)
     elif r["kind"] == "probe":
         u = by_name[r["unit"]]
-        code = [rej for name, rej, acc in L.point_probes(u, r["rep"]) if name == r["form"]][0]
-        res, _ = core.run_probes(cfg, [core.Probe(0, code, "reject")], wd, "rp", L.UNITS_PREAMBLE)
-        hit = "accepted: " + code if res[0][0] == "accept" else None
+        rej, acc = [(rej, acc) for name, rej, acc in L.point_probes(u, r["rep"]) if name == r["form"]][0]
+        if r.get("which") == "twin":
+            res, _ = core.run_probes(cfg, [core.Probe(0, acc, "accept")], wd, "rp", L.PROBE_PREAMBLE)
+            hit = "rejected: %s :: %s" % (acc, res[0][1]) if res[0][0] == "reject" else None
+        else:
+            res, _ = core.run_probes(cfg, [core.Probe(0, rej, "reject")], wd, "rp", L.PROBE_PREAMBLE)
+            hit = "accepted: " + rej if res[0][0] == "accept" else None
     elif r["kind"] == "value":
         u = by_name[r["unit"]]
         from ..c13_lib import lit
